@@ -1682,3 +1682,12 @@ func specNextLine(fb *functionBuilder) int {
 //@   props X00 C04
 //@   panics allowed
 //@   idxassert[C04] a.em.fb.fn.FieldIndexes 0 256
+
+//@ func (*functionStore).predefFunc
+//@   props X00 C20
+//@   panics allowed
+//@   opt puremethods IsNative Addressable Kind Interface
+//@   opt stable functionStore emitter functionBuilder
+//@   requires fs != nil && fs.emitter != nil && fs.emitter.fb != nil && fs.emitter.fb.fn != nil && fs.predefFuncIndexes != nil
+//@   requires len(fs.emitter.fb.fn.NativeFunctions) <= 256
+//@   ensures[C20] len(fs.emitter.fb.fn.NativeFunctions) <= 256
